@@ -215,7 +215,8 @@ def main(argv):
         distribution=mod.distribution([r["case"] for r in rows]) if hasattr(mod, "distribution") else {},
         samples=[dict(case=r["case"], implementation=r["res"]) for r in rows[len(corpus):len(corpus) + 2]],
         extra=getattr(mod, "EXTRA_COVERAGE", {}))
-    core.write_evidence(prop, tier, coverage, time.time() - t0, nviol, assumptions)
+    if not replay:            # a replay of one stored case never replaces the evidence of a full run
+        core.write_evidence(prop, tier, coverage, time.time() - t0, nviol, assumptions)
     print(f"{prop} {tier}: {len(rows)} cases, {len(failures)} disagreements, {nviol} violations, "
           f"{props['discharged']}/{props['obligations']} theorems, {time.time() - t0:.0f}s", flush=True)
     return 1 if nviol else 0
